@@ -2,9 +2,15 @@
 (* Code -> spec: each line is one compiled case {t, c: case record, observed: "NPU" | "CPU" | "FAIL" | "LOST", unchanged}
    ("FAIL": the compiler produced no output model; "LOST": the operator is neither preserved nor explained by an
    ethos-u operator of the output model).
+   c.force and the other option fields of the case record say how the compiler was invoked.
    TLC recomputes what the report says about the case (Expect, from the constants parsed out of the report the
    working tree generated) and compares it with where the compiler put the operator. *)
 EXTENDS SupportedOps, Json, IOUtils
+
+\* Whatever an undecided bullet means, the operator either satisfies the listed constraints (then it runs on the NPU) or
+\* violates one (then it stays on the CPU): a compilation that produces no output model is neither.  TRUE makes such a
+\* failure a verdict ("UndecidedButFails"); see the comment in SupportedOpsTrace.cfg for why the delivered value is FALSE.
+CONSTANT UndecidedFailureIsVerdict
 
 Trace == ndJsonDeserialize(IOEnv.TRACE_FILE)
 VARIABLES l, viol
@@ -15,9 +21,10 @@ Failures(e) ==
       (IF x = "NPU" /\ e.observed = "CPU" THEN {<<e.t, "SatisfiesButCpu", {}>>} ELSE {})
  \cup (IF x = "CPU" /\ e.observed = "NPU" THEN {<<e.t, "ViolatesButNpu", Failing(e.c)>>} ELSE {})
  \cup (IF e.observed = "CPU" /\ ~e.unchanged THEN {<<e.t, "CpuNotUnchanged", {}>>} ELSE {})
- \cup (IF e.observed = "LOST" THEN {<<e.t, "OperatorLost", {}>>} ELSE {})
+ \cup (IF e.observed = "LOST" /\ ~(NoOp(e.c) /\ x # "CPU") THEN {<<e.t, "OperatorLost", {}>>} ELSE {})
  \cup (IF x = "NPU" /\ e.observed = "FAIL" THEN {<<e.t, "SatisfiesButFails", {}>>} ELSE {})
  \cup (IF x = "CPU" /\ e.observed = "FAIL" THEN {<<e.t, "ViolatesButFails", Failing(e.c)>>} ELSE {})
+ \cup (IF UndecidedFailureIsVerdict /\ x = "ANY" /\ e.observed = "FAIL" THEN {<<e.t, "UndecidedButFails", Undecided(e.c)>>} ELSE {})
 
 Init == l = 1 /\ viol = {}
 Next == /\ l <= Len(Trace)
